@@ -26,6 +26,7 @@ const (
 	Connect   DialPlan = iota // connect to the listener registered for the address (refuse if none)
 	Refuse                    // ECONNREFUSED
 	Blackhole                 // no answer: fails when the context ends or DialTimeout elapses
+	Slow                      // as Connect, but the connection is established only after SlowDial of (virtual) time
 )
 
 type DialEvent struct {
@@ -41,6 +42,7 @@ type Net struct {
 	ips         map[string]net.IP
 	Plan        map[string]DialPlan
 	DialTimeout time.Duration
+	SlowDial    time.Duration // delay of a Slow dial (default 2 s)
 	dials       []DialEvent
 	conns       []*Conn
 	nextIP      int
@@ -189,6 +191,21 @@ func (n *Net) DialConn(ctx context.Context, network, addr, from string) (*Conn, 
 			n.logDial(from, key, "timeout")
 			return nil, opErr(timeoutError{})
 		}
+	}
+	if plan == Slow {
+		d := n.SlowDial
+		if d <= 0 {
+			d = 2 * time.Second
+		}
+		n.mu.Unlock()
+		t := time.NewTimer(d)
+		select {
+		case <-ctx.Done():
+		case <-t.C:
+		}
+		t.Stop()
+		n.mu.Lock()
+		l = n.lns[key]
 	}
 	defer n.mu.Unlock()
 	if err := ctx.Err(); err != nil {
